@@ -41,6 +41,7 @@ func genC18(tier string, seed int64) []Case {
 	for n := 0; n <= 1; n++ {
 		for _, h := range []int64{150, 300} {
 			add(c18Desc{Order: "P,R,N", HookMs: h, NExt: n})
+			add(c18Desc{Order: "P,R,N-fast", HookMs: h, NExt: n})
 			add(c18Desc{Order: "P,R,-", HookMs: h, NExt: n})
 			add(c18Desc{Order: "R,P", HookMs: h, NExt: n})
 			add(c18Desc{Order: "noP", HookMs: h, NExt: n})
@@ -255,6 +256,40 @@ func runC18(c *Ctx, d c18Desc) {
 			c.Check(inv.Wait(5*time.Second) && inv.Err == nil, "invoke_after_restore", "C18/invoke-after-restore-fails", "invocation after restore failed", vh.ErrName(inv.Err))
 		}
 
+	case "P,R,N-fast":
+		// the runtime is quicker than the platform: it has run its (empty) hook and is already
+		// parked in next when the restore path starts waiting for it
+		w.Hk.Hold("handleRestore.released", 0)
+		a := park()
+		ch, _, _ := restore("AKIA-R1", d.HookMs*4)
+		if !w.Hk.WaitHeld("handleRestore.released", 5*time.Second) {
+			c.Inconclusive("pause point handleRestore.released not reached")
+			return
+		}
+		r := a.Wait(3 * time.Second)
+		if !c.Check(r != nil && r.Status == 200, "restore_releases_poll", "C18/poll-not-released", "restore/next was not released by the restore request", nil) {
+			w.Hk.Release("handleRestore.released")
+			return
+		}
+		nx := vh.Go(func() *vh.Resp { return rt.Next() })
+		vh.Settle(nx, func() bool { return w.E.RuntimeState() == "Ready" }, 3*time.Second)
+		time.Sleep(time.Millisecond)
+		w.Hk.Release("handleRestore.released")
+		select {
+		case err := <-ch:
+			c.Check(err == nil, "restore_succeeds_after_next", "C18/restore-error/PRN-fast/"+fmt.Sprint(err), "restore returned an error although the runtime had run its hook and asked for next (before the platform started waiting)", fmt.Sprint(err))
+		case <-time.After(hook*4 + 6*time.Second):
+			c.Check(false, "restore_returns", "C18/restore-hang/PRN-fast", "restore never returned although the runtime asked for next", nil)
+			return
+		}
+		inv := w.E.InvokeAsync([]byte("after-restore"), vh.InvokeOpts{})
+		ev := nx.Wait(5 * time.Second)
+		if c.Check(ev != nil && ev.Status == 200, "invoke_after_restore", "C18/invoke-after-restore", "no invocation delivered after a successful restore", nil) {
+			rt.Respond(ev.ReqID(), []byte("ok"), nil)
+			vh.Go(func() *vh.Resp { return rt.Next() })
+			c.Check(inv.Wait(5*time.Second) && inv.Err == nil, "invoke_after_restore", "C18/invoke-after-restore-fails", "invocation after restore failed", vh.ErrName(inv.Err))
+		}
+
 	case "P,R,-":
 		a := park()
 		ch, t0, _ := restore("AKIA-R1", d.HookMs)
@@ -362,6 +397,7 @@ func runC18(c *Ctx, d c18Desc) {
 	}
 	_ = finishWithInvoke
 	lifecycleOracle(c, w)
+	c.SetHooks(w.Hk.Arrived())
 	c.SetTrace(d.id(), true)
 	if c.WantSample || c.Violated() {
 		c.SetSample(sampleLog(w, 80))
